@@ -264,3 +264,9 @@ func VerifC07_SplitSizePrefixVsConcurrentFrame() {
 	}
 	verifrt.Reach("split-pub-done", err == nil)
 }
+
+// "Every body, 1 byte up to max-msg-size, on every path it can take: memory or DISK queue": the
+// largest legal body plus its 26-byte envelope is a record the topic's and the channel's disk
+// queue accept (a refused record is only logged - the body would never arrive at all). Shared
+// with C01/C05 (verifMaxSizeOverflow, c01.go).
+func VerifC07_LargestBodyTakesTheDiskPath() { verifrt.Atomic(verifMaxSizeOverflow) }
